@@ -513,29 +513,33 @@ func constBool(v ssa.Value) (val bool, isConst bool) {
 	return false, false
 }
 
-func (P *Program) BoolSummary(fn *ssa.Function) *boolSum {
-	if P.boolSums == nil {
-		P.boolSums = map[*ssa.Function]*boolSum{}
+func (P *Program) BoolSummary(fn *ssa.Function) *boolSum { return P.BoolSummaryK(fn, 0, true) }
+
+// BoolSummaryK summarises result #k of fn (a bool). single = fn must have exactly one result.
+func (P *Program) BoolSummaryK(fn *ssa.Function, k int, single bool) *boolSum {
+	if P.boolSumsK == nil {
+		P.boolSumsK = map[boolSumKey]*boolSum{}
 	}
-	if s, ok := P.boolSums[fn]; ok {
+	key := boolSumKey{fn, k}
+	if s, ok := P.boolSumsK[key]; ok {
 		return s
 	}
 	s := &boolSum{}
-	P.boolSums[fn] = s
-	if fn == nil || len(fn.Blocks) == 0 || fn.Signature.Results().Len() != 1 {
+	P.boolSumsK[key] = s
+	if fn == nil || len(fn.Blocks) == 0 || k >= fn.Signature.Results().Len() {
 		return s
 	}
-	if b, ok := fn.Signature.Results().At(0).Type().Underlying().(*types.Basic); !ok || b.Kind() != types.Bool {
+	if b, ok := fn.Signature.Results().At(k).Type().Underlying().(*types.Basic); !ok || b.Kind() != types.Bool {
 		return s
 	}
 	firstT, firstF := true, true
 	var tl, fl litSet
 	allInstrs(fn, func(b *ssa.BasicBlock, ins ssa.Instruction) {
 		r, ok := ins.(*ssa.Return)
-		if !ok || len(r.Results) != 1 {
+		if !ok || k >= len(r.Results) {
 			return
 		}
-		v := r.Results[0]
+		v := r.Results[k]
 		br := boolReturn{ret: r, val: v, guards: P.BlockGuards(b), mayTrue: true, mayFalse: true}
 		if cv, isC := constBool(v); isC {
 			br.mayTrue, br.mayFalse = cv, !cv
@@ -571,6 +575,35 @@ func (P *Program) BoolSummary(fn *ssa.Function) *boolSum {
 	return s
 }
 
+// litHelperCall: the literal is the bool result (#k) of a call of a product function with a body.
+func (P *Program) litHelperCall(l Lit) (*ssa.Call, int) {
+	if l.Kind != "cond" || l.Val == nil {
+		return nil, 0
+	}
+	var call *ssa.Call
+	k := 0
+	switch x := l.Val.(type) {
+	case *ssa.Call:
+		call = x
+	case *ssa.Extract:
+		c, ok := x.Tuple.(*ssa.Call)
+		if !ok {
+			return nil, 0
+		}
+		call, k = c, x.Index
+	default:
+		return nil, 0
+	}
+	callee := call.Call.StaticCallee()
+	if callee == nil || !P.IsProductFunc(callee) || len(callee.Blocks) == 0 {
+		return nil, 0
+	}
+	if !P.BoolSummaryK(callee, k, false).ok {
+		return nil, 0
+	}
+	return call, k
+}
+
 // Expand adds, for every literal that is a call of a product bool function, the literals its result implies.
 func (P *Program) Expand(lits []Lit) []Lit {
 	out := append([]Lit{}, lits...)
@@ -578,20 +611,17 @@ func (P *Program) Expand(lits []Lit) []Lit {
 	for _, l := range out {
 		seen[l.String()] = true
 	}
-	for i := 0; i < len(out) && i < 400; i++ {
+	for i := 0; i < len(out) && i < 600; i++ {
 		l := out[i]
-		c := litCall(l)
-		if c == nil {
+		call, k := P.litHelperCall(l)
+		if call == nil {
 			continue
 		}
-		callee := c.Call.StaticCallee()
-		if callee == nil || !P.IsProductFunc(callee) || len(callee.Blocks) == 0 {
-			continue
+		callee := call.Call.StaticCallee()
+		if P.isAnchor(callee) {
+			continue // anchors (containers, configuration, ...) are judged by their own rules, not looked into
 		}
-		sum := P.BoolSummary(callee)
-		if !sum.ok {
-			continue
-		}
+		sum := P.BoolSummaryK(callee, k, false)
 		add := sum.falseLits
 		if l.Pos {
 			add = sum.trueLits
@@ -600,7 +630,9 @@ func (P *Program) Expand(lits []Lit) []Lit {
 			if a.Kind == "rangeloop" || a.Kind == "rangefunc" {
 				continue
 			}
-			a.Via = FuncName(callee)
+			if a.Via == "" {
+				a.Via = FuncName(callee)
+			}
 			if !seen[a.String()] {
 				seen[a.String()] = true
 				out = append(out, a)
